@@ -42,10 +42,21 @@ type recConn struct {
 	transient bool // the scripted failure hits one write only, the connection stays usable
 	broken    bool
 	outside   chan struct{} // signalled on a write outside any operation (the client's own ticker)
+	stall     time.Duration // the link blocks this long before the second write of the current operation (once)
+	stalled1  bool
 }
 
 func (c *recConn) Write(p []byte) (int, error) {
 	c.mu.Lock()
+	if c.curOp >= 0 && c.stall > 0 && c.opWrites == 1 && !c.stalled1 {
+		// a congested link: the frame is held between its first and second write, the lock is not
+		// held meanwhile, so whatever else writes on the connection now lands inside the frame
+		c.stalled1 = true
+		d := c.stall
+		c.mu.Unlock()
+		time.Sleep(d)
+		c.mu.Lock()
+	}
 	defer c.mu.Unlock()
 	if c.curOp < 0 {
 		select {
@@ -161,7 +172,7 @@ func (s *statusReader) counts() (int, int) {
 }
 
 type mtcpOp struct {
-	kind      int // 0 = Send, 1 = keep-alive byte injected by the harness at this frame boundary, 2 = wait for the client's own tick, 3 = Send of an unserialisable variant of the bundle
+	kind      int // 4 = Send held by the link for 5.3 s between its first and second write (spans a tick of the client's own ticker), 0 = Send, 1 = keep-alive byte injected by the harness at this frame boundary, 2 = wait for the client's own tick, 3 = Send of an unserialisable variant of the bundle
 	bndl      int // index into the bundle table
 	failAt    int // -1 = no scripted failure
 	failM     int
@@ -251,11 +262,27 @@ func mtcpConnOnceC(client *mtcp.MTCPClient, emit emitFn, label string, bundles [
 	stalled := false
 	for i, op := range ops {
 		switch op.kind {
-		case 0:
+		case 0, 4:
 			d0, _ := cr.counts()
 			rc.begin(i, op.failAt, op.failM, op.transient)
+			if op.kind == 4 {
+				rc.mu.Lock()
+				rc.stall, rc.stalled1 = 5300*time.Millisecond, false
+				rc.mu.Unlock()
+			}
 			err := client.Send(bundles[op.bndl].b)
 			rc.end()
+			if op.kind == 4 {
+				rc.mu.Lock()
+				rc.stall = 0
+				rc.mu.Unlock()
+				// the tick that fell into the held Send is written right behind it
+				select {
+				case <-rc.outside:
+				case <-time.After(2 * time.Second):
+				}
+				anchor = time.Now()
+			}
 			if time.Since(anchor) > 2*time.Second {
 				stalled = true
 			}
@@ -350,7 +377,7 @@ func mtcpConnOnceC(client *mtcp.MTCPClient, emit emitFn, label string, bundles [
 	// only the bundles this connection used, renumbered
 	local := map[int]int{}
 	for _, op := range ops {
-		if op.kind == 0 {
+		if op.kind == 0 || op.kind == 4 {
 			if _, ok := local[op.bndl]; !ok {
 				local[op.bndl] = len(bl)
 				bl = append(bl, X(bundles[op.bndl].raw))
@@ -358,7 +385,7 @@ func mtcpConnOnceC(client *mtcp.MTCPClient, emit emitFn, label string, bundles [
 		}
 	}
 	for i, op := range ops {
-		if op.kind == 0 {
+		if op.kind == 0 || op.kind == 4 {
 			l := obs[i].(sList)
 			l[1] = I(local[op.bndl])
 		}
@@ -449,17 +476,33 @@ func genC12mtcp(o *Out, r *Rng, thorough bool) {
 		fields []S
 	}
 	var held []heldCase
+	var heldMu sync.Mutex
+	emitHeld := func(kind string, fields ...S) {
+		heldMu.Lock()
+		held = append(held, heldCase{kind, fields})
+		heldMu.Unlock()
+	}
 	var wg sync.WaitGroup
 	kaB := []mtcpBundle{mtcpBundleOfSize(r, 100, 1), mtcpBundleOfSize(r, 300, 2)}
 	wg.Add(1)
 	go func() {
 		defer wg.Done()
 		for attempt := 0; attempt < 3; attempt++ {
-			if mtcpConnOnce(func(kind string, fields ...S) { held = append(held, heldCase{kind, fields}) },
+			if mtcpConnOnce(emitHeld,
 				"real-keepalive", kaB, []mtcpOp{{0, 0, -1, 0, false}, {2, 0, -1, 0, false}, {0, 1, -1, 0, false}}, 0, true, attempt == 2, time.Now()) {
 				break
 			}
 		}
+	}()
+
+	// a Send above the bufio buffer held by the link between two of its writes for longer than the keep-alive
+	// period: the client's ticker fires meanwhile; nothing may land inside the frame, the stream stays aligned
+	stB := []mtcpBundle{mtcpBundleOfSize(r, 100, 3), mtcpBundleOfSize(r, 9000, 4), mtcpBundleOfSize(r, 4200, 5)}
+	wg.Add(1)
+	go func() {
+		defer wg.Done()
+		mtcpConnOnce(emitHeld,
+			"stalled-send", stB, []mtcpOp{{0, 0, -1, 0, false}, {4, 1, -1, 0, false}, {0, 2, -1, 0, false}, {0, 0, -1, 0, false}}, 0, false, true, time.Now())
 	}()
 
 	// bundle table: sizes around the CBOR head widths and the bufio buffer
